@@ -246,6 +246,30 @@ func init() {
 			}()
 			p := addr.MustParseAddress("tcp://" + ln.Addr().String())
 			l.Forward = &p
+		case "okrst":
+			// a reachable forward address whose service answers and then ends the connection abortively (a reset, not an orderly close):
+			// the local connection WAS served directly
+			ln, _ := net.Listen("tcp", "127.0.0.1:0")
+			stops = append(stops, func() { ln.Close() })
+			go func() {
+				for {
+					c, err := ln.Accept()
+					if err != nil {
+						return
+					}
+					atomic.AddInt32(&fwdHits, 1)
+					go func(c net.Conn) {
+						c.Write([]byte{0xF0})
+						time.Sleep(30 * time.Millisecond)
+						if tc, ok := c.(*net.TCPConn); ok {
+							tc.SetLinger(0)
+						}
+						c.Close()
+					}(c)
+				}
+			}()
+			p := addr.MustParseAddress("tcp://" + ln.Addr().String())
+			l.Forward = &p
 		case "refused":
 			p := addr.MustParseAddress(fmt.Sprintf("tcp://127.0.0.1:%d", freePort()))
 			l.Forward = &p
@@ -321,6 +345,9 @@ func init() {
 				switch {
 				case err == nil && buf[0] == 0xF0:
 					out = append(out, TW("fwd"))
+					if fwd == "okrst" {
+						time.Sleep(200 * time.Millisecond) // the application is still there when the service resets the connection
+					}
 				case err == nil:
 					out = append(out, TW("up"), TIn(int(buf[0])))
 				default:
